@@ -475,7 +475,7 @@ func run(a hx.RunArgs) error {
 	}
 	n := 1200
 	if a.Thorough {
-		n = 60000
+		n = 30000
 	}
 	for i := 0; i < n; i++ {
 		g := &gen{r: r}
